@@ -19,10 +19,12 @@ from pathlib import Path
 
 VERIF = Path(__file__).resolve().parent.parent
 REPO = Path(os.environ.get("SCICO_REPO", "/repo"))
-COQ = VERIF / "coq"
+# VERIF_COQ / VERIF_BUILD / VERIF_EVID: private copies used only by tools/seedtest.py, so that checks run against
+# several scratch trees at the same time do not share generated files; the registered commands never set them.
+COQ = Path(os.environ.get("VERIF_COQ") or VERIF / "coq")
 GEN = COQ / "gen"
-BUILD = VERIF / "build"
-EVID = VERIF / "evidence"
+BUILD = Path(os.environ.get("VERIF_BUILD") or VERIF / "build")
+EVID = Path(os.environ.get("VERIF_EVID") or VERIF / "evidence")
 REPLAYS = VERIF / "replays"
 CORPUS = VERIF / "corpus"
 KNOWN = VERIF / "known_findings.json"
@@ -113,7 +115,9 @@ def write_if_changed(path: Path, text: str) -> bool:
     path.parent.mkdir(parents=True, exist_ok=True)
     if path.exists() and path.read_text() == text:
         return False
-    path.write_text(text)
+    tmp = path.with_name(path.name + f".tmp{os.getpid()}")
+    tmp.write_text(text)
+    os.replace(tmp, path)          # atomic: a concurrent coqc never sees a half-written file
     return True
 
 
@@ -332,6 +336,7 @@ class Ctx:
     def proofs(self):
         """Regenerate the source-derived Coq files from the current tree, then compile the property's
         theorem file; every theorem is an obligation."""
+        lk = _lock()               # checks may run concurrently: regenerate under the build lock
         try:
             r = subprocess.run(["/venv/bin/python", str(VERIF / "tools" / "py2coq.py"), "--all"],
                                capture_output=True, text=True, timeout=300,
@@ -342,6 +347,8 @@ class Ctx:
                                   + (r.stdout + r.stderr).strip()[-400:])
         except Exception as ex:   # noqa: BLE001
             self.notes.append(f"py2coq could not be run: {ex}")
+        finally:
+            lk.close()
         try:
             n, ax, names = check_property_file(self.pid)
             self.obligations += n
